@@ -30,9 +30,10 @@ import (
 // ---------------------------------------------------------------------------------------------------------------
 
 const (
-	rtTry       = 80 * time.Millisecond // per-try timeout when configured
+	rtTry       = 100 * time.Millisecond // per-try timeout when configured
 	rtGlobalOff = 3 * time.Second       // global timeout that never fires within a case
-	rtRetryGap  = 11 * time.Millisecond // doRetry sleeps 10 ms
+	rtRetryGap  = 12 * time.Millisecond // doRetry sleeps 10 ms
+	rtGtInto    = 50 * time.Millisecond // the global timer fires this long after the planned start of the scripted attempt
 )
 
 type rtCase struct {
@@ -171,7 +172,7 @@ func genRt(r *hx.Rng) *rtCase {
 			}
 			start += rtRetryGap
 		}
-		k.global = start + 40*time.Millisecond
+		k.global = start + rtGtInto
 	}
 	k.path = r.PickS([]string{"/svc", "/svc/a", "/svc/a/b.html", "/svcx", "/svc/"})
 	if r.Chance(45) {
@@ -229,16 +230,19 @@ func runRtOnce(k *rtCase) (impl string, ok bool, note string) {
 	attemptsNow := func() int { return len(ex.UpstreamAttempts()) }
 	for i := 0; i < len(k.script); i++ {
 		// attempt i exists (or the exchange ended / got stuck)
-		if !ex.WaitTrace(250*time.Millisecond, func([]string) bool { return attemptsNow() > i || ex.Done() }) || attemptsNow() <= i {
+		// (a long bound: only a worker that is really gone — the lost-worker quirk — runs into it; a loaded machine must not)
+		if !ex.WaitTrace(1500*time.Millisecond, func([]string) bool { return attemptsNow() > i || ex.Done() }) || attemptsNow() <= i {
 			break
 		}
-		a := ex.WaitAttemptFor(i, 100*time.Millisecond)
+		a := ex.WaitAttemptFor(i, time.Second)
 		if a == nil {
 			note = "attempt-not-sent"
 			ok = false
 			break
 		}
 		o := k.script[i]
+		timed := o == "pt" || o == "gt"
+		finite := k.global != rtGlobalOff
 		switch {
 		case o == "pc" || o == "po":
 			// already refused by the pool
@@ -262,23 +266,38 @@ func runRtOnce(k *rtCase) (impl string, ok bool, note string) {
 			t0 := a.Created
 			ex.WaitTrace(rtTry+150*time.Millisecond, func([]string) bool { return attemptsNow() > i+1 || ex.Done() })
 			if el := ex.Elapsed() - t0; el < rtTry-5*time.Millisecond || el > rtTry+60*time.Millisecond {
-				note = "pt-skew"
-				ok = false
+				note, ok = "pt-skew", false
 			}
 		case o == "gt":
-			// silence until the global timer fires; the attempt must have started well inside (global-40ms ± 25ms)
-			if d := a.Created - (k.global - 40*time.Millisecond); d < -25*time.Millisecond || d > 25*time.Millisecond {
-				note = "gt-skew"
-				ok = false
+			// silence until the global timer fires; the attempt must have started well inside (planned start ± 25ms)
+			if d := a.Created - (k.global - rtGtInto); d < -25*time.Millisecond || d > 25*time.Millisecond {
+				note, ok = "gt-skew", false
 			}
 			ex.WaitTrace(k.global+200*time.Millisecond, func([]string) bool { return ex.Done() })
+		}
+		if ok && !timed {
+			// a scripted event must have been delivered well before any armed timer of this attempt could fire, and what it
+			// causes (next attempt or the end) must be there before the global timer
+			now := ex.Elapsed()
+			if k.tryEffective() && now-a.Created > rtTry-30*time.Millisecond {
+				note, ok = "late-vs-pertry", false
+			}
+			if finite && now > k.global-25*time.Millisecond {
+				note, ok = "late-vs-global", false
+			}
+			if ok && finite {
+				ex.WaitTrace(60*time.Millisecond, func([]string) bool { return attemptsNow() > i+1 || ex.Done() })
+				if ex.Elapsed() > k.global-10*time.Millisecond {
+					note, ok = "late-vs-global", false
+				}
+			}
 		}
 		if !ok {
 			break
 		}
 	}
 	// settle: either finished, or nothing moves any more (stuck)
-	ex.WaitTrace(120*time.Millisecond, func([]string) bool { return ex.Done() })
+	ex.WaitTrace(1200*time.Millisecond, func([]string) bool { return ex.Done() })
 	ex.WaitQuiescentFor(25 * time.Millisecond)
 	if k.probe && ex.Done() {
 		// events after the response started must not cause anything
